@@ -690,6 +690,12 @@ class Interp:
                 return {ast.Gt: a > b, ast.Lt: a < b, ast.GtE: a >= b, ast.LtE: a <= b, ast.Eq: a == b, ast.NotEq: a != b}[type(op)]
             if isinstance(a, tuple) and a and a[0] == "len":
                 return self.decide(("len", a[1], type(op).__name__, b))
+            if isinstance(a, tuple) and a and a[0] == "len-some" and isinstance(b, int):
+                # same convention as truth(): a list with Star elements is treated as non-empty, compared with 0 / 1 only
+                nonempty = a[1] > 0
+                table = {("Eq", 0): not nonempty, ("NotEq", 0): nonempty, ("Gt", 0): nonempty, ("GtE", 1): nonempty, ("Lt", 1): not nonempty, ("LtE", 0): not nonempty}
+                if (type(op).__name__, b) in table:
+                    return table[(type(op).__name__, b)]
             if isinstance(a, (SymStr, Ident)) or isinstance(b, (SymStr, Ident)):
                 r = self.decide(("streq", repr(a), repr(b)))
                 return r if isinstance(op, ast.Eq) else not r
@@ -889,6 +895,8 @@ class Interp:
                 return ("len", v.path)
             if isinstance(v, (list, tuple)) and not any(isinstance(x, Star) for x in v):
                 return len(v)
+            if isinstance(v, (list, tuple)):
+                return ("len-some", len(v))        # a list holding repeated (Star) elements: its length is only known to be what its truth value says
             raise Unsupported(f"len of {v!r}")
         if name == "getattr":
             obj, attr = args[0], args[1]
